@@ -42,6 +42,38 @@ def main(tier):
     ok &= len(tot["attention"]) == 1
     # ---- 2b. vacuity: every program point of the interpreter is exercised by the model (checked on every M1 run, see m1_ops.run)
     print("selftest 2b: program points of NodeOps!Step reached by the %d vectors of %s: %d of %d" % (tot["n"], c["name"], len(tot["pcs"]), len(m1_ops.ALL_PCS)))
+    # ---- 2c. re-entrant hooks: a corrupted expectation is reported; the (correct) observation is then explained by TLC and violates
+    #          nothing; the same observation with the nested call's effect wiped is judged a violation
+    rc_ = m1_ops.RE["quick"][0]
+    rstats = m1_ops.run_re_model(rc_, False)
+    rlines = [ln for ln in T.read_lines(rstats["lines_path"])[:3000]]
+    pick = next(i for i, ln in enumerate(rlines) if (lambda v: not v["cyc"] and v["ni"] and v["o"]["nest"]["exc"] == "Nil" and v["o"]["plan"]["akind"] == "sp"
+                                                     and v["o"]["plan"]["av"] != "Nil" and v["o"]["nest"]["hi"] >= v["o"]["nest"]["lo"]
+                                                     and v["o"]["exc"] == "Nil")(json.loads(json.loads(ln))))
+    vec = json.loads(json.loads(rlines[pick]))
+    vec["o"]["nest"]["exc"] = "LoopError"
+    rlines[pick] = json.dumps(json.dumps(vec)) + "\n"
+    with core.pool(ops_replay.worker_init, (core.repo_path(), False), 1) as pl:
+        r = core.pmap(pl, ops_replay.replay_chunk_re, [(rlines, ["mixin"], None)])[0]
+    obs = r["attention"][0]["obs"] if r["attention"] else None
+
+    def ev(o, eid):
+        return {"id": eid, "k": o["k"], "n": o["n"], "v": o.get("v", "Nil"), "xs": list(o.get("xs", [])), "bad": False, "sure": True,
+                "plan": {"ak": o["plan"]["ak"], "am": o["plan"]["am"], "av": o["plan"]["av"], "akind": o["plan"]["akind"], "ar": bool(o["plan"]["ar"])},
+                "strict": True, "asrt": False, "prepar": o["prepar"], "prech": o["prech"], "postpar": o["postpar"], "postch": o["postch"],
+                "exc": o["exc"], "src": 0, "log": [{"h": x["h"], "n": x["n"], "a": list(x["a"]), "r": bool(x["r"]), "par": x["par"], "ch": x["ch"]} for x in o["log"]],
+                "nest": o["nest"]}
+    good2c = False
+    if obs is not None and len(r["attention"]) == 1:
+        wiped = copy.deepcopy(obs)
+        wiped["nest"]["par"][wiped["plan"]["am"]] = "Nil"      # the nested `am.parent = av` "left am a root"
+        verd, _ = judge.run_judge("TraceOpsRe", [ev(obs, "good"), ev(wiped, "wiped")], {"Nil": "Nil", "NonNode": "NonNode", "MaxStack": 12}, tag="selftest-re")
+        print("selftest 2c: %d re-entrant vectors replayed, %d differ from the (corrupted) expectation; TLC on the real observation: %s; "
+              "with the nested call's effect wiped: %s" % (r["n"], len(r["attention"]), sorted(verd["good"]), sorted(verd["wiped"])))
+        good2c = verd["good"] == {"explained"} and bool(verd["wiped"] - {"explained"})
+    else:
+        print("selftest 2c: %d vectors differ from the corrupted expectation (expected 1)" % len(r["attention"]))
+    ok &= good2c
     # ---- 3. seeded changes
     if os.environ.get("VERIF_SELFTEST_MUTANTS"):
         sd = os.path.join(core.VERIF, "seeded")
